@@ -36,7 +36,7 @@ GRID_DOCS = {
     'meta3': 'ver:"3.0" dis:"Site \\"A\\"" mk num:-4.2e-3 when:2020-02-29\nid dis:"Id" foo,ts,loc unit:"m"\n@a.b-c:1 "Disp",2021-03-04T05:06:07.5+01:00 Paris,C(37.5,-122.25)\nR,12:30:00 , `http://x/a?b=c`\n',
     'coll3': 'ver:"3.0"\nv\n[1, "two" , T ,]\n{a:1 b mk:"x"}\n<<ver:"3.0"\nn\n[5]\n>>\nNA\nBin("text/plain")\n',
     'esc2': 'ver:"2.0"\na,b\n"q\\" \\\\ \\$ \\n \\u00e9 \\t",`u\\`x\\u00e9\\\\`\nBin(text/plain),M\n',
-    'crlf3': 'ver:"3.0" tag\r\na, b\r\n1_000 , INF\r\n-INF,NaN\r\n"x",\r\n,F\r\n, \r\n',
+    'crlf3': 'ver:"3.0" tag\r\na, b\r\n1_000 , INF\r\n-INF,NaN\r\n5,\r\n,F\r\n',
     'two3': 'ver:"3.0"\na\n1\n\nver:"3.0"\nb\n"s"\n',
     'dt2': 'ver:"2.0"\nt\n2020-01-02t03:04:05z\n2020-01-02T03:04:05Z UTC\n2020-06-01T00:00:00-04:00 New_York\n23:59:59.999\n',
 }
